@@ -53,7 +53,7 @@ RenderSql(e, s, v, m) ==
     n |-> InLen(s, v),                                               \* post-compile: the current list
     e0 |-> IF ~UsesNoneSchema(es) \/ (es.c = "ltab" /\ V[e.p].tab # "a") THEN "-"
            ELSE IF Flag(e.m) /\ HasNoneKey(e.m) THEN Eff("main", m) ELSE "main",       \* placeholder / literal
-    e1 |-> IF es.f \in {"s1", "xjoin"} THEN (IF Flag(e.m) THEN Eff("s1", m) ELSE "s1")
+    e1 |-> IF UsesS1Schema(es) THEN (IF Flag(e.m) THEN Eff("s1", m) ELSE "s1")
            ELSE IF es.c = "ltab" /\ V[e.p].tab # "a" THEN V[e.p].tab ELSE "-"]
 RenderBinds(e, s, v) ==
    LET es == ByName[e.sh] IN
